@@ -85,7 +85,7 @@ Definition cred_path (k : credkind) (typed pw : bs) : pwres :=
   end.
 
 (* the identity checkAuth returns for a request authenticated this way *)
-Definition admitted (k : credkind) (typed pw : bs) : option bs := p_identity (cred_path k typed pw).
+Definition identity_of (k : credkind) (typed pw : bs) : option bs := p_identity (cred_path k typed pw).
 
 (* ---- specification side: the account a typed name stands for on each path.  A certificate's common
    name was written by this keymaster: it is the account as it stands. *)
@@ -124,18 +124,18 @@ Definition ip_cert (autom : bool) : tlsinfo :=
      c_revoked := false |}.
 
 Definition ident_server (st0 : server) (k : credkind) (typed pw : bs) : server :=
-  with_name st0 (fun _ => match admitted k typed pw with Some id => id | None => [] end).
+  with_name st0 (fun _ => match identity_of k typed pw with Some id => id | None => [] end).
 
 Definition ident_request (st0 : server) (q0 : certreq) (now : Z) (k : credkind) (typed pw : bs) : certreq :=
   match k with
   | KLoginForm | KLoginBasic =>
-      match admitted k typed pw with
+      match identity_of k typed pw with
       | Some _ => with_auth q0 None (Some (login_session st0 now)) None     (* the cookie the login set *)
       | None => with_auth q0 None None None                                 (* the login set none *)
       end
   | KBasic =>
       with_auth q0 None None
-        (Some {| b_user := 1; b_ok := match admitted k typed pw with Some _ => true | None => false end; b_err := false |})
+        (Some {| b_user := 1; b_ok := match identity_of k typed pw with Some _ => true | None => false end; b_err := false |})
   | KCert => with_auth q0 (Some user_cert) None None
   | KIpCert => with_auth q0 (Some (ip_cert (automation typed))) None None
   end.
